@@ -171,6 +171,27 @@ def runOp (op : String) (fields : List String) (impl : String) : Option Verdict 
   | "PARSE", [h] => do
     let s ← Bytes.ofHex h
     pure { model := fmtParse (parse s), oracle := ParseOracle.clauses s impl false }
+  | "PIECES", [h] => do
+    -- Parse of the whole source next to Parse of every piece of SplitStatements:
+    -- `kinds e|o` for the whole, then for every piece (L let, T tabular, - none)
+    let s ← Bytes.ofHex h
+    let kinds (r : List Stmt × Errs) : String :=
+      let k := String.join (r.1.map fun | .let_ .. => "L" | .tabular _ => "T")
+      (if k.isEmpty then "-" else k) ++ (if r.2.isEmpty then " o" else " e")
+    let model := " ;; ".intercalate (kinds (parse s) :: (splitStatements s).map fun p => kinds (parse p))
+    -- oracle on the implementation's own answers (C15): statements of the whole = statements of
+    -- the pieces in order; an error in the whole iff in some piece; pieces yield at most one
+    let oracle : List String :=
+      match (impl.splitOn " ;; ").map (fun x => x.splitOn " ") with
+      | [w, we] :: ps =>
+        if !(ps.all fun p => p.length == 2) then ["unparseable-result"] else
+        let pk := String.join (ps.map fun p => if p.headD "" == "-" then "" else p.headD "")
+        let wk := if w == "-" then "" else w
+        (if wk != pk then ["c15-parse-disagrees-with-pieces"] else []) ++
+        (if (we == "e") != (ps.any fun p => p.getD 1 "" == "e") then ["c15-error-disagrees-with-pieces"] else []) ++
+        (if ps.any (fun p => (p.headD "").length > 1) then ["c15-piece-yields-several-statements"] else [])
+      | _ => ["unparseable-result"]
+    pure { model, oracle }
   | "WALK", [h, mask] => do
     let s ← Bytes.ofHex h
     -- oracle (unpruned walks only): the implementation's trace against the nodes of the tree
